@@ -199,7 +199,8 @@ def r2_escaping(ctx):
     ok = len(cont) == 1 and path_of(cont[0].args[1]) == 'elem' and any(A.is_str(n) and n.value == '<' for n in ast.walk(f))
     yield Ob('xmlwriter:XMLWriter.elem closes the element it opened', ok, ctx.floc(f), '' if ok else 'closing tag changed')
     f = ctx.func('xmlwriter', 'XMLWriter.pop')
-    ok = 'self.stack[-1]' in ast.unparse(f) and 'del self.stack[-1]' in ast.unparse(f) and '</{elem}>' in ast.unparse(f)
+    txt = ast.unparse(f)
+    ok = (('self.stack[-1]' in txt and 'del self.stack[-1]' in txt) or 'self.stack.pop()' in txt) and '</{elem}>' in txt
     require_idiom(ok, 'c08.py:202')
     yield Ob('xmlwriter:XMLWriter.pop closes the innermost open element', ok, ctx.floc(f), '' if ok else 'pop changed')
     f = ctx.func('xmlwriter', 'XMLWriter.push')
@@ -273,9 +274,23 @@ def r4_empty_agreement(ctx):
     yield Ob('x12xml_simple:x12xml_simple.seg visits every element position the map defines', okr, ctx.floc(seg, lp),
              '' if okr else 'element range %s skips or exceeds positions' % norm(lp.iter))
     gs = ctx.func('xmlx12_simple', 'get_segment')
-    conds = [norm(n.test) for n in ast.walk(gs) if isinstance(n, ast.If) and '.text' in norm(n.test)]
-    ok = len(conds) == 2 and all("!= ''" in c for c in conds)
-    yield Ob('xmlx12_simple:get_segment stores only non-empty text', ok, ctx.floc(gs), '' if ok else 'conditions %s' % conds)
+    # every seg_data.set(id, X.text) is reached only when X.text is a non-empty string: the conjunction of the
+    # enclosing tests is evaluated for text in (None, '', 'v')
+    sets = [c for c in A.calls_in(gs) if A.call_target(c)[1] == 'set' and len(c.args) == 2 and norm(c.args[1]).endswith('.text')]
+    bad = []
+    for c in sets:
+        tx = norm(c.args[1])
+        st = A.enclosing(c, (ast.stmt,))
+        conds = [(t, pol) for t, pol in A.path_condition(st, gs) if A.free_paths(t) <= {tx}]
+        for val, want in ((None, False), ('', False), ('v', True)):
+            try:
+                got = all(bool(A.ev(t, {tx: val})) == pol for t, pol in conds)
+            except (A.NotClosed, TypeError):
+                got = None
+            if got != want and not (val is None and got is True and False):
+                bad.append('%s is %s for text %r' % (norm(c), 'stored' if got else 'skipped', val))
+    ok = len(sets) == 2 and not [b_ for b_ in bad if "''" in b_ or "'v'" in b_]
+    yield Ob('xmlx12_simple:get_segment stores only non-empty text', ok, ctx.floc(gs), '' if ok else 'conditions: %s' % (bad or '%d stores' % len(sets)))
     conv = ctx.func('xmlx12_simple', 'convert')
     ok = any(isinstance(n, ast.For) and 'doc.iter()' in norm(n.iter) for n in ast.walk(conv)) and \
         any(A.call_target(c) == ('wr', 'Write') and norm(c.args[0]) == 'get_segment(node)' for c in A.calls_in(conv))
